@@ -67,7 +67,7 @@ pub const DEFS: [Def; 19] = [
 ];
 
 pub const TYPE_FAULTS: [&str; 7] = ["REAL", "Videotex", "TIME", "inverted-range", "undefined-ref", "macro", "selection-undefined"];
-pub const VALUE_FAULTS: [&str; 7] = ["real-value", "real-seq-value", "undefined-type-value", "all-value", "local-time-value", "inline-enum-value", "optional-omitted-value"];
+pub const VALUE_FAULTS: [&str; 9] = ["real-value", "real-seq-value", "undefined-type-value", "all-value", "local-time-value", "inline-enum-value", "optional-omitted-value", "class-field-value", "inline-seq-class-field-value"];
 
 fn fault_text(d: &Def, kind: &str) -> String {
     let n = d.name;
@@ -85,6 +85,8 @@ fn fault_text(d: &Def, kind: &str) -> String {
         "selection-undefined" => format!("{n} ::= x < Undefined-Choice"),
         "local-time-value" => format!("{n} GeneralizedTime ::= \"19990102030405\""),
         "inline-enum-value" => format!("{n} ENUMERATED {{ on, off }} ::= off"),
+        "class-field-value" => format!("{n} AA-CLASS.&id ::= 5"),
+        "inline-seq-class-field-value" => format!("{n} SEQUENCE {{ a AA-CLASS.&id }} ::= {{ a 1 }}"),
         "optional-omitted-value" => format!("{n} SEQUENCE {{ a INTEGER, b BOOLEAN OPTIONAL }} ::= {{ a 1 }}"),
         _ => unreachable!(),
     }
@@ -210,7 +212,7 @@ impl Prop for C10 {
         "C10"
     }
     fn rule(&self) -> String {
-        "base: 16 definitions of every kind (constrained INTEGER, SEQUENCE, CHOICE, ENUMERATED, SEQUENCE OF, alias, SET, BIT STRING with named bits, hyphenated name; values of INTEGER, referenced INTEGER, string, OID, enumeral, CHOICE, named bits) with a dependency graph, in one module or split over two modules with IMPORTS, in forward and reverse textual order, both backends, with and without definitions of the documented no-output categories (class, object, object set, parameterized template; names sorting before and after every other definition) in front; faults: every way of replacing k=1 (quick) / k<=2 (thorough) definitions by a parseable-but-unsupported one of each kind {REAL, VideotexString, TIME type assignment, inverted range, reference to an undefined type, MACRO definition; REAL value (decimal and { mantissa, base, exponent } notation), value of an undefined type, ALL value, local-time value, value of an ENUMERATED / SEQUENCE type written in the value assignment; selection type of an undefined CHOICE}. Oracle: every top-level assignment of the faulted input is generated under its mangled name in its own module, or named by a warning, or covered by an anonymous warning (count), or is a class/object/template (a MACRO is none of these and must be warned about); locality: every definition that does not transitively depend on a faulted one has exactly the items of the fault-free compilation. Non-trivial: the faulted input compiled to Ok and was accounted.".into()
+        "base: 16 definitions of every kind (constrained INTEGER, SEQUENCE, CHOICE, ENUMERATED, SEQUENCE OF, alias, SET, BIT STRING with named bits, hyphenated name; values of INTEGER, referenced INTEGER, string, OID, enumeral, CHOICE, named bits) with a dependency graph, in one module or split over two modules with IMPORTS, in forward and reverse textual order, both backends, with and without definitions of the documented no-output categories (class, object, object set, parameterized template; names sorting before and after every other definition) in front; faults: every way of replacing k=1 (quick) / k<=2 (thorough) definitions by a parseable-but-unsupported one of each kind {REAL, VideotexString, TIME type assignment, inverted range, reference to an undefined type, MACRO definition; REAL value (decimal and { mantissa, base, exponent } notation), value of an undefined type, ALL value, local-time value, value of an ENUMERATED / SEQUENCE type written in the value assignment, value governed by a class field (directly / inside an inline SEQUENCE); selection type of an undefined CHOICE}. Oracle: every top-level assignment of the faulted input is generated under its mangled name in its own module, or named by a warning, or covered by an anonymous warning (count), or is a class/object/template (a MACRO is none of these and must be warned about); locality: every definition that does not transitively depend on a faulted one has exactly the items of the fault-free compilation. Non-trivial: the faulted input compiled to Ok and was accounted.".into()
     }
     fn selftest(&self) -> Result<u64, String> {
         for layout in ["one", "two"] {
